@@ -1,5 +1,117 @@
-/- Helper lemmas for C19 part (b). -/
+/- Helper lemmas for C19 part (b) and for CRS equality. -/
 import OdcGeo.Model.C19
 namespace OdcGeo.C19
+
+theorem PyNum.eq_iff (a b : PyNum) : a.eq b = true ↔ a.val = b.val := by
+  simp [PyNum.eq]
+
+theorem numsEq_iff : ∀ (as bs : List PyNum), numsEq as bs = true ↔ as.map (·.val) = bs.map (·.val)
+  | [], [] => by simp [numsEq]
+  | [], _ :: _ => by simp [numsEq]
+  | _ :: _, [] => by simp [numsEq]
+  | a :: as, b :: bs => by simp [numsEq, PyNum.eq_iff, numsEq_iff as bs]
+
+theorem map_num_inj : ∀ (as bs : List PyNum), as.map Atom.num = bs.map Atom.num → as = bs
+  | [], [] => by simp
+  | [], _ :: _ => by simp
+  | _ :: _, [] => by simp
+  | a :: as, b :: bs => by
+    intro h
+    simp only [List.map_cons, List.cons.injEq, Atom.num.injEq] at h
+    rw [h.1, map_num_inj as bs h.2]
+
+theorem map_hv_congr {as bs : List PyNum} (h : as.map (·.val) = bs.map (·.val)) :
+    as.map (fun n => hv n.val) = bs.map (fun n => hv n.val) := by
+  have : as.map (fun n => hv n.val) = (as.map (·.val)).map hv := by simp
+  rw [this, h]; simp
+
+/-- `crsEq` spelled out. -/
+theorem crsEq_iff (a b : CrsObj) : crsEq a b = true ↔
+    (a.obj = b.obj ∨
+      (a.obj ≠ b.obj ∧ (truthy a.epsg = true ∧ truthy b.epsg = true) ∧ a.epsg = b.epsg) ∨
+      (a.obj ≠ b.obj ∧ ¬ (truthy a.epsg = true ∧ truthy b.epsg = true) ∧
+        (a.str = b.str ∨ a.info.sys = b.info.sys))) := by
+  unfold crsEq
+  by_cases h1 : a.obj = b.obj
+  · simp [h1]
+  · by_cases h2 : truthy a.epsg = true ∧ truthy b.epsg = true
+    · simp [h1, h2]
+    · by_cases h3 : a.str = b.str
+      · have : (truthy a.epsg && truthy b.epsg) = false := by
+          cases ha : truthy a.epsg <;> cases hb : truthy b.epsg <;> simp_all
+        simp [h1, h3, this, h2]
+      · have : (truthy a.epsg && truthy b.epsg) = false := by
+          cases ha : truthy a.epsg <;> cases hb : truthy b.epsg <;> simp_all
+        simp [h1, h3, this, h2]
+
+/-- **EPSG coherence** on a set `D` of CRS instances: the facts about pyproj the code relies
+on when it short-cuts `__eq__` through object identity, cached EPSG codes and strings.
+`epsg_sys` is the one real CRSs can violate (finding K4: `to_epsg()` accepts a 70 %
+match, so a lossy PROJ string reports the code of a system it is not `==` to). -/
+structure Coherent (D : CrsObj → Prop) : Prop where
+  obj_sys : ∀ a b, D a → D b → a.obj = b.obj → a.info.sys = b.info.sys
+  epsg_sys : ∀ a b, D a → D b → truthy a.epsg = true → truthy b.epsg = true →
+    (a.epsg = b.epsg ↔ a.info.sys = b.info.sys)
+  str_sys : ∀ a b, D a → D b → a.str = b.str → a.info.sys = b.info.sys
+  str_ne_none : ∀ a, D a → a.str ≠ "None"
+
+/-- Under coherence `==` is "denotes the same coordinate system". -/
+theorem crs_eq_iff_sys_aux {D : CrsObj → Prop} (hD : Coherent D) (a b : CrsObj) (ha : D a) (hb : D b) :
+    crsEq a b = true ↔ a.info.sys = b.info.sys := by
+  rw [crsEq_iff]
+  constructor
+  · rintro (h | ⟨_, h2, h3⟩ | ⟨_, _, h3 | h3⟩)
+    · exact hD.obj_sys a b ha hb h
+    · exact (hD.epsg_sys a b ha hb h2.1 h2.2).1 h3
+    · exact hD.str_sys a b ha hb h3
+    · exact h3
+  · intro h
+    by_cases h1 : a.obj = b.obj
+    · exact Or.inl h1
+    · by_cases h2 : truthy a.epsg = true ∧ truthy b.epsg = true
+      · exact Or.inr (Or.inl ⟨h1, h2, (hD.epsg_sys a b ha hb h2.1 h2.2).2 h⟩)
+      · exact Or.inr (Or.inr ⟨h1, h2, Or.inr h⟩)
+
+
+/-- domain predicate lifted to optional CRS fields -/
+def OptD (D : CrsObj → Prop) : Option CrsObj → Prop
+  | none => True
+  | some c => D c
+
+theorem optCrsEq_iff {D : CrsObj → Prop} (hD : Coherent D) (a b : Option CrsObj)
+    (ha : OptD D a) (hb : OptD D b) :
+    optCrsEq a b = true ↔ a.map (·.info.sys) = b.map (·.info.sys) := by
+  cases a <;> cases b <;> simp [optCrsEq]
+  exact crs_eq_iff_sys_aux hD _ _ ha hb
+
+theorem optCrsEq_of_str {D : CrsObj → Prop} (hD : Coherent D) (a b : Option CrsObj)
+    (ha : OptD D a) (hb : OptD D b) (h : optCrsStr a = optCrsStr b) : optCrsEq a b = true := by
+  cases a with
+  | none =>
+    cases b with
+    | none => rfl
+    | some b => exact absurd h.symm (hD.str_ne_none b hb)
+  | some a =>
+    cases b with
+    | none => exact absurd h (hD.str_ne_none a ha)
+    | some b =>
+      exact (crs_eq_iff_sys_aux hD a b ha hb).2 (hD.str_sys a b ha hb h)
+
+theorem optCrsEq_of_pkl {D : CrsObj → Prop} (hD : Coherent D) (a b : Option CrsObj)
+    (ha : OptD D a) (hb : OptD D b) (h : optCrsPkl a = optCrsPkl b) : optCrsEq a b = true := by
+  cases a with
+  | none =>
+    cases b with
+    | none => rfl
+    | some b => simp [optCrsPkl] at h
+  | some a =>
+    cases b with
+    | none => simp [optCrsPkl] at h
+    | some b =>
+      have hs : a.str = b.str := by simpa [optCrsPkl] using h
+      exact (crs_eq_iff_sys_aux hD a b ha hb).2 (hD.str_sys a b ha hb hs)
+
+theorem optCrsEq_refl (a : Option CrsObj) : optCrsEq a a = true := by
+  cases a <;> simp [optCrsEq, crsEq]
 
 end OdcGeo.C19
